@@ -10,7 +10,10 @@ import subprocess
 import sys
 import time
 
-from .core import BUILD, REPO, VERIF
+import re
+import shutil
+
+from .core import ALT, BUILD, REPO, VERIF
 
 GUARD = "--cfg dinfuehr_dora_verif"
 ENV_BASE = {"CARGO_NET_OFFLINE": "true", "CARGO_TERM_COLOR": "never"}
@@ -91,9 +94,42 @@ FLAVOUR_ARGS = {
 }
 
 
+def _alt_prepare():
+    """Self-test mode (VERIF_REPO set): binaries must find the *mutated* pkgs directory."""
+    if ALT:
+        os.makedirs(BUILD, exist_ok=True)
+        link = os.path.join(BUILD, "pkgs")
+        if os.path.realpath(link) != os.path.join(REPO, "pkgs"):
+            if os.path.islink(link):
+                os.unlink(link)
+            os.symlink(os.path.join(REPO, "pkgs"), link)
+
+
+def harness_src():
+    """The harness workspace; in self-test mode a copy whose path dependencies point at VERIF_REPO."""
+    src = os.path.join(VERIF, "harness")
+    if not ALT:
+        return src
+    dst = os.path.join(BUILD, "harness-src")
+    for root, dirs, files in os.walk(src):
+        dirs[:] = [d for d in dirs if d != "target"]
+        rel = os.path.relpath(root, src)
+        os.makedirs(os.path.join(dst, rel), exist_ok=True)
+        for f in files:
+            a, b = os.path.join(root, f), os.path.join(dst, rel, f)
+            data = open(a, "rb").read()
+            if f.endswith((".toml", ".rs")):
+                data = data.replace(b'"/repo/', ('"%s/' % REPO).encode())
+            if not os.path.exists(b) or open(b, "rb").read() != data:
+                with open(b, "wb") as fh:
+                    fh.write(data)
+    return dst
+
+
 def ensure_toolchain(flavour="rel", repo=REPO, need_boots=True, quiet=False):
     """cargo build (dora, runtime, startup, cannon compiler, language server) + manual bootstrap."""
     t0 = time.time()
+    _alt_prepare()
     with Lock():
         tdir = target_dir(flavour)
         os.makedirs(tdir, exist_ok=True)
@@ -147,7 +183,8 @@ def _bootstrap(flavour, repo, log):
 def ensure_harness(bins=None, quiet=False, profile_args=("--release",)):
     """Build the Rust harness workspace (path deps on /repo crates)."""
     t0 = time.time()
-    hdir = os.path.join(VERIF, "harness")
+    _alt_prepare()
+    hdir = harness_src()
     with Lock("harness"):
         tdir = target_dir("harness")
         log = os.path.join(BUILD, "build-harness.log")
